@@ -163,7 +163,7 @@ def c07_worker(args, scratch):
             c.send(rawhttp.build_request("GET", "/k7/" + vid, [("x-vf-id", vid)]))
             return c.read_response().status
         for rnd in range(args["rounds"] if not args.get("delays") else 0):
-            nconn = r.choice([16, 32, 48])
+            nconn = r.choice([48, 64, 96])
             ports = [None] * nconn
             barrier = threading.Barrier(nconn)
 
